@@ -47,6 +47,7 @@ def js_e(e):
     if t == 'num': return str(e[1]) if e[1] >= 0 else '(%d)' % e[1]
     if t == 'str': return json.dumps(e[1])
     if t == 'var': return e[1]
+    if t == 'evalvar': return 'eval(%s)' % json.dumps(e[1])      # direct eval of an identifier = the identifier
     if t == 'this': return 'this'
     if t == 'func': return js_fd(e[1])
     if t == 'log': return 'log(%s)' % js_e(e[1])
@@ -165,7 +166,7 @@ class SX:
         if t == 'bool': return '(bool %d)' % (1 if e[1] else 0)
         if t == 'num': return '(num %d)' % e[1]
         if t == 'str': return '(str %s)' % json.dumps(e[1])
-        if t == 'var': return '(var %s)' % e[1]
+        if t in ('var', 'evalvar'): return '(var %s)' % e[1]
         if t == 'func': return '(func %d)' % self.fd(e[1])
         if t == 'log': return '(log %s)' % self.e(e[1])
         if t == 'un': return '(un %s %s)' % (e[1], self.e(e[2]))
@@ -317,6 +318,8 @@ class Gen:
         vs = self.vars_of(scope, lambda v: v.ty == ty or (ty == 'num' and v.ty == 'loopctr'))
         if deep or r.random() < 0.3:
             if vs and r.random() < 0.7:
+                if r.random() < 0.06:
+                    return ('evalvar', r.choice(vs).name)    # live direct eval: the scope becomes dynamic
                 return ('var', r.choice(vs).name)
             return self.lit(ty)
         c = r.random()
@@ -343,7 +346,16 @@ class Gen:
                 if fs:
                     f = r.choice(fs)
                     n = f.ty[1] + r.choice([0, 0, 0, 0, 0, 0, 0, 0, -1, 1, 1])
-                    return ('call', ('var', f.name), [self.expr(scope, 'num', d + 1) for _ in range(max(0, n))])
+                    mask = f.ty[2] if len(f.ty) > 2 else ()
+                    args = []
+                    for i in range(max(0, n)):
+                        if i < len(mask) and mask[i] and r.random() < 0.45:
+                            args.append(('undef',))          # triggers the parameter initialiser
+                        else:
+                            args.append(self.expr(scope, 'num', d + 1))
+                    while args and len(args) <= len(mask) and mask[len(args) - 1] and r.random() < 0.3:
+                        args.pop()                            # omit trailing defaulted arguments
+                    return ('call', ('var', f.name), args)
             if c < 0.76:
                 os_ = self.vars_of(scope, lambda v: isinstance(v.ty, tuple) and v.ty[0] == 'obj')
                 if os_:
@@ -435,10 +447,24 @@ class Gen:
             x = self.lex_name(fs)
             fs.lex_names.add(x)
             d = None
-            if r.random() < 0.3:
+            if r.random() < 0.35:
                 d = self.expr(fs, 'num', 2)        # may refer to earlier parameters / outer variables
+                k = r.random()
+                nums = [v.name for v in fs.lookup_all() if v.ty in ('num', 'loopctr')]
+                if k < 0.30 and nums:
+                    d = ('evalvar', r.choice(nums))                       # direct eval in a parameter initialiser
+                elif k < 0.40 and nums:
+                    d = ('bin', 'add', ('evalvar', r.choice(nums)), d)
+                elif k < 0.47:
+                    d = ('evalvar', '__later__')                          # patched below: a LATER parameter (TDZ)
+                elif k < 0.52:
+                    d = ('var', '__later__')
             params.append((x, d))
             fs.vars[x] = Var(x, 'param', 'num' if d is not None or r.random() < 0.85 else 'any')
+        for i, (x, d) in enumerate(params):
+            if d is not None and d[0] in ('evalvar', 'var') and d[1] == '__later__':
+                later = [y for (y, _) in params[i + 1:]]
+                params[i] = (x, (d[0], r.choice(later)) if later else ('num', 3))
         rest = None
         if r.random() < 0.15:
             rest = self.lex_name(fs)
@@ -553,11 +579,11 @@ class Gen:
                 e = ('arr', [self.expr(scope, 'num', 2) for _ in range(r.choice([0, 1, 2, 3]))])
                 return self.declare(scope, kind, ('arr',), e)
             fd, n = self.fundef(scope)
-            return self.declare(scope, kind, ('fun', n), ('func', fd))
+            return self.declare(scope, kind, ('fun', n, tuple(d is not None for (_, d) in fd['params'])), ('func', fd))
         if c < 0.46 and top:
             fd, n = self.fundef(scope, kind='normal')
             x = self.fresh('f')
-            scope.vars[x] = Var(x, 'function', ('fun', n), assignable=False)
+            scope.vars[x] = Var(x, 'function', ('fun', n, tuple(d is not None for (_, d) in fd['params'])), assignable=False)
             scope.lex_names.add(x)
             return ('fdecl', x, fd)
         if c < 0.54:
@@ -729,6 +755,66 @@ class Gen:
         fb = self.stmts(Scope(scope), r.choice([1, 2]), ctx) if has_f else []
         return ('try', body, has_c, param, cb, has_f, fb)
 
+    # -- completion-value gadgets: the script ends with a compound statement whose value is decided by
+    #    UpdateEmpty across iterations / fall-through / continue / constant and non-constant `if`s
+    def cv_items(self, scope, ctr, depth, in_loop, in_switch):
+        r = self.r
+        out = []
+        for _ in range(r.choice([1, 2, 2, 3])):
+            c = r.random()
+            if c < 0.30:
+                out.append(('expr', r.choice([('num', r.choice([1, 7, 9])), ('str', r.choice(['a', 'zz'])), ('var', ctr)])))
+            elif c < 0.60:
+                test = r.choice([('bool', False), ('bool', True), ('bin', 'lt', ('num', 2), ('num', 1)), ('num', 0),
+                                 ('bin', 'lt', ('var', ctr), ('num', 1)), ('bin', 'seq', ('var', ctr), ('num', 1)),
+                                 ('bin', 'gt', ('var', ctr), ('num', 0))])
+                t = r.choice([('empty',), ('block', []), ('expr', ('num', 5)), ('block', [('expr', ('str', 'k'))])])
+                if depth < 2 and r.random() < 0.3:
+                    t = ('block', self.cv_items(scope, ctr, depth + 1, in_loop, in_switch))
+                e = ('empty',)
+                if r.random() < 0.35:
+                    e = r.choice([('block', []), ('expr', ('num', 6)), ('block', [('expr', ('str', 'e'))])])
+                out.append(('if', test, t, e))
+            elif c < 0.72 and in_loop:
+                j = r.choice([('continue', None), ('break', None)])
+                if r.random() < 0.7:
+                    j = ('if', r.choice([('bin', 'lt', ('var', ctr), ('num', 1)), ('bin', 'seq', ('var', ctr), ('num', 1)), ('bool', True)]), j, ('empty',))
+                out.append(j)
+            elif c < 0.80 and in_switch:
+                out.append(('break', None))
+            elif c < 0.90 and depth < 2:
+                out.append(self.cv_gadget(scope, depth + 1, ctr))
+            else:
+                out.append(r.choice([('empty',), ('block', []), ('decl', 'var', [('d', self.fresh(), ('num', 1))])]))
+        return out
+
+    def cv_gadget(self, scope, depth=0, outer_ctr=None):
+        r = self.r
+        k = self.fresh()
+        c = r.random()
+        pre = ('decl', 'var', [('d', k, ('num', 0))])
+        if c < 0.30:
+            body = self.cv_items(scope, k, depth, True, False)
+            g = ('do', ('block', body), ('bin', 'lt', ('update', True, True, k), ('num', r.choice([2, 3]))))
+        elif c < 0.50:
+            body = self.cv_items(scope, k, depth, True, False)
+            g = ('while', ('bin', 'lt', ('update', True, False, k), ('num', r.choice([2, 3]))), ('block', body))
+        elif c < 0.65:
+            body = self.cv_items(scope, k, depth, True, False)
+            g = ('for', ('none',), ('bin', 'lt', ('var', k), ('num', r.choice([2, 3]))), ('update', True, False, k), ('block', body))
+        elif c < 0.90:
+            disc = ('var', outer_ctr) if outer_ctr and r.random() < 0.7 else ('num', r.choice([0, 1, 2]))
+            cases = []
+            for v in r.sample([0, 1, 2, 3], r.choice([2, 3])):
+                cases.append((('num', v), self.cv_items(scope, outer_ctr or k, depth, False, True)))
+            if r.random() < 0.7:
+                cases.insert(r.randrange(len(cases) + 1), (None, self.cv_items(scope, outer_ctr or k, depth, False, True)))
+            g = ('switch', disc, cases)
+        else:
+            g = ('try', self.cv_items(scope, outer_ctr or k, depth, False, False), True, None,
+                 [('expr', ('num', 8))], r.random() < 0.5, [('expr', ('num', 4))])
+        return ('block', [pre, g]) if depth > 0 else [pre, g]
+
     # -- program
     def program(self):
         r = self.r
@@ -752,7 +838,10 @@ class Gen:
                     body.append(('expr', ('log', ('call', ('var', v.name), [('num', 2)] * max(0, v.ty[1])))))
                 else:
                     body.append(('expr', ('log', ('var', v.name))))
-        if r.random() < 0.6:
+        c = r.random()
+        if c < 0.35:
+            body += self.cv_gadget(g)          # the completion value of the script comes from a compound statement
+        elif c < 0.75:
             body.append(('expr', self.expr(g, 'any')))
         return dict(body=body)
 
@@ -896,7 +985,7 @@ def rw_dead_code_after_abrupt(rng, prog, strict):
     if not cands:
         return None
     site, i = rng.choice(cands)
-    site.lst[i + 1:i + 1] = dead_stmts(rng, site.names, strict, not site.lexsw or rng.random() < 0.08)
+    site.lst[i + 1:i + 1] = dead_stmts(rng, site.names, strict)
     return p
 
 
@@ -907,7 +996,7 @@ def rw_if_false_dead_branch(rng, prog, strict):
         return None
     for site, s in rng.sample(cands, min(len(cands), rng.choice([1, 1, 2, 3]))):
         i = [k for k, x in enumerate(site.lst) if x is s][0]
-        site.lst.insert(i, ('if', ('bool', False), ('block', dead_stmts(rng, site.names, strict, not site.lexsw or rng.random() < 0.08)), ('empty',)))
+        site.lst.insert(i, ('if', ('bool', False), ('block', dead_stmts(rng, site.names, strict)), ('empty',)))
     return p
 
 
@@ -1325,3 +1414,62 @@ def lexical_decl_in_dead_code(x, dead=False):
     if x[0] == 'decl' and x[1] in ('let', 'const') and dead:
         return True
     return any(lexical_decl_in_dead_code(z, dead) for z in x if isinstance(z, (tuple, list, dict)))
+
+
+def neutralise_params(x):
+    """Semantics-preserving: (1) a direct eval of an identifier becomes the identifier; (2) in a parameter
+    initialiser, a DIRECT reference (not inside a nested function) to the same or a later parameter -- which can
+    only ever throw a ReferenceError (TDZ) when evaluated -- becomes a reference to an undeclared name (also a
+    ReferenceError).  Afterwards goja has no reason to use the forward-reference prologue (enterFunc1)."""
+    def ev(e):
+        if isinstance(e, list): return [ev(y) for y in e]
+        if isinstance(e, dict): return fd(e)
+        if not isinstance(e, tuple) or not e: return e
+        if e[0] == 'evalvar': return ('var', e[1])
+        return tuple(ev(z) if isinstance(z, (tuple, list, dict)) else z for z in e)
+
+    def fwd(e, later):
+        if isinstance(e, list): return [fwd(y, later) for y in e]
+        if isinstance(e, dict): return e                      # nested function: not a direct reference
+        if not isinstance(e, tuple) or not e: return e
+        if e[0] == 'var' and e[1] in later: return ('var', 'undecl_tdz')
+        if e[0] == 'un' and e[1] == 'typeof' and e[2][0] == 'var' and e[2][1] in later: return e   # typeof of a TDZ name throws too, keep
+        return tuple(fwd(z, later) if isinstance(z, (tuple, list, dict)) else z for z in e)
+
+    def fd(d):
+        if 'params' not in d:
+            return {k: ev(v) for k, v in d.items()}
+        names = [n for (n, _) in d['params']] + ([d['rest']] if d.get('rest') else [])
+        ps = []
+        for i, (n, dflt) in enumerate(d['params']):
+            if dflt is not None:
+                dflt = fwd(ev(dflt), set(names[i:]))
+            ps.append((n, dflt))
+        out = dict(d)
+        out['params'] = ps
+        out['body'] = ev(d['body'])
+        return out
+    return ev(x)
+
+
+def fwd_param_pattern(x):
+    """A function with a parameter initialiser that contains a direct eval or a reference to the same/a later
+    parameter (goja then compiles the forward-reference prologue)."""
+    def uses(e, names):
+        if isinstance(e, tuple):
+            if e and e[0] == 'evalvar': return True
+            if e and e[0] == 'var' and e[1] in names: return True
+            return any(uses(z, names) for z in e)
+        if isinstance(e, list): return any(uses(z, names) for z in e)
+        if isinstance(e, dict): return any(uses(z, names) for z in e.values())
+        return False
+    if isinstance(x, dict):
+        if 'params' in x:
+            names = [n for (n, _) in x['params']]
+            for i, (n, d) in enumerate(x['params']):
+                if d is not None and uses(d, set(names[i:])):
+                    return True
+        return any(fwd_param_pattern(v) for v in x.values())
+    if isinstance(x, (tuple, list)):
+        return any(fwd_param_pattern(y) for y in x)
+    return False
